@@ -310,3 +310,33 @@ simple_elem!(P8U, |_slot: usize, key: u8| P8U(key), |s: &P8U| s.0, |_s: &P8U| 0u
 #[derive(Clone, Copy)]
 pub struct B4T(pub [u8; 4]);
 simple_elem!(B4T, |_slot: usize, key: u8| B4T([key, 1, 2, 3]), |s: &B4T| s.0[0], |_s: &B4T| 0usize);
+
+// reverse directions of the refusal matrix (source larger / more aligned than target)
+#[derive(Clone, Copy)]
+pub struct B4U(pub [u8; 4]);
+simple_elem!(B4U, |_slot: usize, key: u8| B4U([key, 1, 2, 3]), |s: &B4U| s.0[0], |_s: &B4U| 0usize);
+#[repr(C)]
+pub struct Tr6T {
+    pub slot: u8,
+    pub key: u8,
+    pub pad: [u16; 2],
+}
+ledger_drop!(Tr6T, T_DROPS, T_TOTAL);
+impl Elem for Tr6T {
+    const HAS_KEY: bool = true;
+    const TRACKED: bool = true;
+    const COUNTED: bool = true;
+    const NAME: &'static str = "Tr6T";
+    fn make(slot: usize, key: u8) -> Self {
+        Tr6T { slot: slot as u8, key, pad: [0; 2] }
+    }
+    fn key(&self) -> u8 {
+        self.key
+    }
+    fn set_key(&mut self, k: u8) {
+        self.key = k;
+    }
+    fn slot(&self) -> usize {
+        self.slot as usize
+    }
+}
